@@ -188,6 +188,11 @@ def check(run, prog, tier):
     run.rule("C02-O", "an evolution answers from the states it has stored: a state object handed to it at construction, whose "
                       "values were copied into the storage, is the caller's and is not read again for a result", minimum=1)
     rule_O(run, prog)
+    run.rule("C02-Q", "the Hamiltonian hands out its matrices (also the rotating-frame one) for the basis and units in force at the "
+                      "call: nothing computed for an earlier propagation is kept", minimum=1)
+    from . import memorule
+    memorule.check(run, prog, "C02-Q", ["quantarhei.qm.hilbertspace.hamiltonian.Hamiltonian"],
+                   "a propagation in another basis context then combines the old rotating-frame Hamiltonian with a transformed tensor and state")
     run.rule("C02-P", "the stored states are of degree one in the initial state in every propagation routine without a field (degree "
                       "analysis): no renormalisation of trace or norm, no clipping, no added constant between rho(0) and rho(t)", minimum=9)
     rule_P(run, prog)
